@@ -16,6 +16,10 @@ type c11HTTPCase struct {
 	AbortAfter int    `json:"abort_after"` // answers delivered before the client goes away
 	LateOrder  string `json:"late_order"`  // oldest newest: order of the answers arriving late
 	Denied     bool   `json:"denied"`      // access denied (only matters if reached)
+	// Trigger is what happens after AbortAfter answers: "" the client goes
+	// away; "reaccess" / "reset": an access re-check trigger for the resource
+	// arrives while the request is still being served (the client stays)
+	Trigger string `json:"trigger,omitempty"`
 }
 
 // c11HTTPAbort enumerates HTTP requests aborted by their client at every
@@ -32,6 +36,15 @@ func c11HTTPAbort(c *RunCtx) {
 			for k := 0; k <= 5; k++ {
 				for _, lo := range []string{"oldest", "newest"} {
 					cases = append(cases, c11HTTPCase{Method: t.method, Path: t.path, HeaderAuth: ha > 0, WithTID: ha == 2, AbortAfter: k, LateOrder: lo})
+				}
+			}
+		}
+	}
+	for _, t := range targets {
+		for _, trig := range []string{"reaccess", "reset"} {
+			for k := 0; k <= 3; k++ {
+				for _, lo := range []string{"oldest", "newest"} {
+					cases = append(cases, c11HTTPCase{Method: t.method, Path: t.path, AbortAfter: k, LateOrder: lo, Trigger: trig})
 				}
 			}
 		}
@@ -103,7 +116,7 @@ func runC11HTTPCase(c *RunCtx, cs c11HTTPCase) {
 		if order == "newest" {
 			r = out[len(out)-1]
 		}
-		if r.CID != "" {
+		if r.CID != "" && r.CID != by.CID {
 			cid = r.CID
 		}
 		switch {
@@ -127,12 +140,22 @@ func runC11HTTPCase(c *RunCtx, cs c11HTTPCase) {
 		}
 	}
 	for _, r := range g.Bus.Reqs()[n0:] {
-		if r.CID != "" {
+		if r.CID != "" && r.CID != by.CID {
 			cid = r.CID
 		}
 	}
 	aborted := !hc.Done()
-	if aborted {
+	switch {
+	case !aborted:
+	case cs.Trigger == "reaccess":
+		w.Reaccess("t.m")
+		w.Reaccess("t.c")
+		w.Reaccess("t.leaf")
+		c.Stat("httpabort_trigger_midway", 1)
+	case cs.Trigger == "reset":
+		w.SystemReset(nil, []string{"t.>"})
+		c.Stat("httpabort_trigger_midway", 1)
+	default:
 		hc.Abort()
 		c.Stat("httpabort_aborted_midway", 1)
 	}
